@@ -2,8 +2,9 @@
 C18 — Persisted metadata and keys read back exactly as written.
 
 Property theorems over the models in ForML.Model.{Tag,Keys,Manifest}.  The work is done in
-ForML.Lemmas.C18Order (comparators, listings), C18GenKey (key text), C18Str / C18Tag (tags),
-C18Py / C18Manifest (manifests), C18Exact (the excluded regions fail everywhere); this file states the obligations.  Nothing is size-bounded: strings, key sets,
+ForML.Lemmas.C18Order (comparators, listings), C18GenKey / C18Values (key text, keys from Python values), C18Str / C18Tag (tags),
+C18Py / C18Manifest (manifests), C18Exact (the excluded regions fail everywhere), C18Store / C18Proc (histories over
+locations), C18Load (component resolution, package content); this file states the obligations.  Nothing is size-bounded: strings, key sets,
 release segments, local-version segments, state lists and module maps are arbitrary lists.
 -/
 import ForML.Lemmas.C18Order
@@ -11,6 +12,10 @@ import ForML.Lemmas.C18GenKey
 import ForML.Lemmas.C18Tag
 import ForML.Lemmas.C18Manifest
 import ForML.Lemmas.C18Exact
+import ForML.Lemmas.C18Proc
+import ForML.Lemmas.C18Load
+import ForML.Lemmas.C18Values
+import ForML.Lemmas.C18Pep440
 
 /-! ## keys and listings -/
 namespace ForML.Keys
@@ -334,3 +339,243 @@ theorem C18_manifest_illegal_name :
   decide
 
 end ForML.Manifest
+
+/-! ## keys from Python values -/
+namespace ForML.Keys
+
+/-- **invalid generation keys are rejected, whatever their Python type**: `Generation.Key(value)` looks at `str(value)`.
+An `int` (or a key) is accepted exactly from one on and is itself; a `bool`, `None`, `bytes`, a tuple and every float
+(integral or not — its text has a `.`, an `e` or an `n`) are rejected as not an integer; a `str` goes by its text
+(`C18_genkey`). -/
+theorem C18_genkey_values :
+    (∀ i : Int, genKeyV (.int i) = if 1 ≤ i then .ok i.toNat else .error .notNatural) ∧
+    (∀ b : Bool, genKeyV (.bool b) = .error .notInteger) ∧
+    genKeyV .none = .error .notInteger ∧
+    (∀ r : List Nat, genKeyV (.bytes r) = .error .notInteger) ∧
+    (∀ r : List Nat, genKeyV (.tuple r) = .error .notInteger) ∧
+    (∀ r : List Nat, floatShape r = true → genKeyV (.float r) = .error .notInteger) ∧
+    (∀ s : List Nat, genKeyV (.str s) = genKey s) :=
+  ⟨genKeyV_int, genKeyV_bool, genKeyV_none, genKeyV_bytes, genKeyV_tuple, genKeyV_float, fun _ => rfl⟩
+
+/-- `int()` reads a text only over white space, digits, underscore and sign: anything else anywhere makes the key invalid -/
+theorem C18_genkey_alphabet (s : List Nat) (c : Nat) (hc : c ∈ s) (hb : intChar c = false) :
+    genKey s = .error .notInteger :=
+  genKey_bad_char s c hc hb
+
+/-- non-vacuity: `1.5`, `2.0`, `1e+16`, `inf`, `nan` have the float shape; `True` is rejected, `7` accepted, `0` and `-3` not natural -/
+example : floatShape [49, 46, 53] = true ∧ floatShape [50, 46, 48] = true ∧ floatShape [49, 101, 43, 49, 54] = true ∧
+    floatShape [105, 110, 102] = true ∧ floatShape [110, 97, 110] = true ∧
+    genKeyV (.bool true) = .error .notInteger ∧ genKeyV (.int 7) = .ok 7 ∧ genKeyV (.int 0) = .error .notNatural ∧
+    genKeyV (.int (-3)) = .error .notNatural ∧ genKeyV (.float [49, 46, 53]) = .error .notInteger := by decide
+
+/-- **values that are not versions are rejected by `Release.Key`**: `bool`, `None`, `bytes`, tuples and negative ints — a
+PEP 440 text starts (after white space and an optional `v`) with a digit -/
+theorem C18_relkey_values :
+    (∀ b : Bool, relKeyV (.bool b) = none) ∧ relKeyV .none = none ∧ (∀ r : List Nat, relKeyV (.bytes r) = none) ∧
+    (∀ r : List Nat, relKeyV (.tuple r) = none) ∧ (∀ n : Nat, relKeyV (.int (Int.negSucc n)) = none) ∧
+    (∀ (c : Nat) (r : List Nat), isSpaceU c = false → (lower c == 118) = false → isDigit c = false → vparse (c :: r) = none) :=
+  ⟨relKeyV_bool, relKeyV_none, relKeyV_bytes, relKeyV_tuple, relKeyV_negative, vparse_bad_head⟩
+
+/-- **`Release.Key(str(k)) == k`**: the normalised text `str(v)` of every well-formed version (a release, pre kind a/b/rc,
+local parts non-empty lower-case alphanumeric and not all digits) is parsed back to exactly the same fields — for releases
+and local versions of any length; so a key made from a `Version` / `Release.Key` object, and a key made from a
+non-negative `int`, are accepted as that version -/
+theorem C18_version_str_roundtrip :
+    (∀ v : Version, wfVersion v = true → vparse (vstr v) = some v) ∧
+    (∀ v : Version, wfVersion v = true → relKeyV (.version v) = some v) ∧
+    (∀ n : Nat, vparse (pyStr (.int (Int.ofNat n))) = some ⟨0, [n], none, none, none, none⟩) := by
+  refine ⟨vparse_vstr, vparse_vstr, fun n => ?_⟩
+  have := vparse_vstr ⟨0, [n], none, none, none, none⟩ rfl
+  show vparse (natStr n) = _
+  simpa [vstr, joinWith] using this
+
+/-- non-vacuity: a version with every part is well-formed; its text is what `packaging` prints -/
+example : wfVersion ⟨1, [2, 0], some (2, 1), some 2, some 0, some [.str [117, 98], .num 1]⟩ = true ∧
+    vstr ⟨1, [2, 0], some (2, 1), some 2, some 0, some [.str [117, 98], .num 1]⟩ =
+      [49, 33, 50, 46, 48, 114, 99, 49, 46, 112, 111, 115, 116, 50, 46, 100, 101, 118, 48, 43, 117, 98, 46, 49] := by decide
+
+/-- non-vacuity of the text parser: every spelling group of PEP 440 (`v` prefix, epoch, `-rc.1`, implicit post `-2`,
+`dev`, local version with mixed separators and case) -/
+example : vparse [32, 86, 49, 33, 50, 46, 48, 45, 82, 67, 46, 49, 45, 50, 46, 100, 101, 118, 43, 85, 98, 45, 49, 95, 120, 10] =
+    some ⟨1, [2, 0], some (2, 1), some 2, some 0, some [.str [117, 98], .num 1, .str [120]]⟩ ∧
+    vparse [49, 46, 48, 97, 46] = some ⟨0, [1, 0], some (0, 0), none, none, none⟩ ∧
+    vparse [49, 46, 48, 43] = none ∧ vparse [49, 46, 46, 48] = none ∧ vparse [49, 46, 48, 97, 108, 112, 104] = none := by decide
+
+end ForML.Keys
+
+/-! ## histories over locations -/
+namespace ForML.Store
+
+/-- the statement at full strength: in one process, whatever sequence of `Manifest.write`, `Package.create`,
+`Package.install`, `Manifest.read` and removals is run on a set of locations, with or without bytecode files, every
+observation is that of the logical store `Path → Content` (every read returns the last write to that path) -/
+def C18_store_read_your_writes_full : Prop :=
+  ∀ (bc : Bool) (h : List Op), (prun bc Store.empty Memo.empty h).2.2 = (lrun (abs Store.empty) h).2
+
+/-- **read-your-writes for every history** that does not rewrite a manifest within the clock second and size of a cached
+bytecode file of another text (`okOp`) and does not change the kind (zip file / directory) of a location the process has
+a path entry finder for (`okKind`) -/
+theorem C18_store_read_your_writes_partial (bc : Bool) (h : List Op) (hok : pokRun bc Store.empty Memo.empty h = true) :
+    (prun bc Store.empty Memo.empty h).2.2 = (lrun (abs Store.empty) h).2 :=
+  prun_refines bc h Store.empty Memo.empty (fresh_of_noPyc (fun _ _ hp => by cases hp)) consistent_empty hok
+
+/-- … from any fresh store with a consistent finder cache -/
+theorem C18_store_refines (bc : Bool) (h : List Op) (s : Store) (k : Memo) (hf : Fresh s) (hc : Consistent k s)
+    (hok : pokRun bc s k h = true) : (prun bc s k h).2.2 = (lrun (abs s) h).2 :=
+  prun_refines bc h s k hf hc hok
+
+/-- **without bytecode files no read is ever stale**: at the file level (mtimes, `__pycache__`) every history on a store
+without bytecode files observes the logical store — no condition on the clock -/
+theorem C18_store_no_bytecode (h : List Op) (s : Store) (hs : NoPyc s) :
+    (run false s h).2 = (lrun (abs s) h).2 :=
+  (run_refines false h s (fresh_of_noPyc hs) (okRun_noPyc h s hs)).1
+
+/-- **with bytecode files a ticking clock is enough**: when every stamping operation (write, install) happens in a later
+second than everything before it, the file level observes the logical store -/
+theorem C18_store_ticking_clock (bc : Bool) (h : List Op) (T : Nat) (s : Store) (hf : Fresh s) (hb : Bound T s)
+    (ht : ticking T h = true) : (run bc s h).2 = (lrun (abs s) h).2 :=
+  (run_refines bc h s hf (okRun_ticking bc h T s hb ht)).1
+
+def m10 : SM := ⟨[112], ⟨0, [1, 0], none, none, none, none⟩, [97], []⟩
+def m11 : SM := ⟨[112], ⟨0, [1, 1], none, none, none, none⟩, [97], []⟩
+def m20 : SM := ⟨[112], ⟨0, [2, 0], none, none, none, none⟩, [97], []⟩
+
+/-- C18-F6: write `1.0`, read, write `1.1` within the same second (same length), read: the old manifest comes back -/
+theorem C18_store_bytecode_counterexample :
+    (prun true Store.empty Memo.empty [.write 0 m10 5, .read 0, .write 0 m11 5, .read 0]).2.2 = [.done, .manifest m10, .done, .manifest m10] ∧
+    (lrun (abs Store.empty) [.write 0 m10 5, .read 0, .write 0 m11 5, .read 0]).2 = [.done, .manifest m10, .done, .manifest m11] := by
+  decide
+
+/-- C18-F7: a zip package at a location is read, removed, a manifest is written there (now a directory): unreadable -/
+theorem C18_store_kind_counterexample :
+    (prun false Store.empty Memo.empty [.create 0 m10 ⟨0, true⟩, .remove 0, .write 0 m20 1, .read 0]).2.2 =
+      [.manifest m10, .done, .done, .error .missing] ∧
+    (lrun (abs Store.empty) [.create 0 m10 ⟨0, true⟩, .remove 0, .write 0 m20 1, .read 0]).2 =
+      [.manifest m10, .done, .done, .manifest m20] := by
+  decide
+
+theorem C18_store_read_your_writes_counterexample : ¬ C18_store_read_your_writes_full := by
+  intro h
+  have h1 := h true [.write 0 m10 5, .read 0, .write 0 m11 5, .read 0]
+  rw [C18_store_bytecode_counterexample.1, C18_store_bytecode_counterexample.2] at h1
+  revert h1
+  decide
+
+/-- non-vacuity: a history with every kind of operation on three locations satisfies the hypothesis, with bytecode files on -/
+example : pokRun true Store.empty Memo.empty
+    [.create 0 m10 ⟨0, false⟩, .create 1 m20 ⟨1, false⟩, .install 0 2 1, .read 2, .install 1 2 2, .read 2, .write 2 m11 3,
+     .read 2, .remove 2, .install 0 2 4, .read 2] = true := by decide
+
+/-- **the logical store is read-your-writes**: after a successful `write` of `m` to `p`, any history that does not
+target `p` (reads anywhere, operations on other locations), then `read p`, returns `m` -/
+theorem C18_store_read_last_write (s : LStore) (p : Path) (m : SM) (t : Nat) (h : List Op)
+    (hw : (lstep s (.write p m t)).2 = .done) (hf : ∀ op ∈ h, target op ≠ some p) :
+    (lstep (lrun (lstep s (.write p m t)).1 h).1 (.read p)).2 = .manifest m := by
+  rw [(lstep_read _ p).2, lrun_frame h p _ hf, lstep_write s p m t hw]
+
+/-- … and the same for a package created at `p`: its manifest is read back, its content is what is there -/
+theorem C18_store_read_last_create (s : LStore) (p : Path) (m : SM) (tr : Tree) (h : List Op)
+    (hw : (lstep s (.create p m tr)).2 = .manifest m) (hf : ∀ op ∈ h, target op ≠ some p) :
+    (lstep (lrun (lstep s (.create p m tr)).1 h).1 (.read p)).2 = .manifest m ∧
+    (lrun (lstep s (.create p m tr)).1 h).1 p = some (.zip m tr) := by
+  have := lstep_create s p m tr hw
+  rw [(lstep_read _ p).2, lrun_frame h p _ hf, this]
+  exact ⟨rfl, rfl⟩
+
+/-- reading never changes the logical store; the observation is the manifest that is there, or `MissingError` -/
+theorem C18_store_read_pure (s : LStore) (p : Path) :
+    (lstep s (.read p)).1 = s ∧
+    (lstep s (.read p)).2 = match lman (s p) with | some m => .manifest m | none => .error .missing :=
+  lstep_read s p
+
+/-- the statement at full strength for `install`: the artifact carries the package's manifest and the target holds the
+package's content -/
+def C18_store_install_full : Prop :=
+  ∀ (s : LStore) (src dst : Path) (t : Nat) (m : SM) (tr : Option Tree),
+    (lstep s (.install src dst t)).2 = .installed m tr → tr = ltree (s src)
+
+/-- **install**: a successful `Package(src).install(dst)` reports the manifest of the package at `src`; afterwards `dst`
+holds that manifest or one equal to it (`==`); the components loaded are those found at `dst`; and they are the
+package's own **unless `dst` already held an equal manifest over other content** (the already-installed shortcut) -/
+theorem C18_store_install_partial (s : LStore) (src dst : Path) (t : Nat) (m : SM) (tr : Option Tree)
+    (h : (lstep s (.install src dst t)).2 = .installed m tr) :
+    lman (s src) = some m ∧
+    (∃ m', lman ((lstep s (.install src dst t)).1 dst) = some m' ∧ (m' = m ∨ meq m' m = true)) ∧
+    tr = ltree ((lstep s (.install src dst t)).1 dst) ∧
+    ((∀ m', lman (s dst) = some m' → meq m' m = true → ltree (s dst) = ltree (s src)) → tr = ltree (s src)) :=
+  lstep_install s src dst t m tr h
+
+/-- two contents under one manifest: the target keeps the old content (a release is taken to be immutable) -/
+theorem C18_store_install_counterexample : ¬ C18_store_install_full := by
+  intro h
+  have := h (fun p => if p = 0 then some (.zip m10 ⟨2, true⟩) else if p = 1 then some (.dir (some m10) (some ⟨1, true⟩)) else none)
+    0 1 0 m10 (some ⟨1, true⟩) (by decide)
+  revert this
+  decide
+
+end ForML.Store
+
+/-! ## component resolution and package content -/
+namespace ForML.Load
+
+/-- **relative names**: with a package, a module name without a dot — whatever it begins with, the package name
+included — is looked up inside the package -/
+theorem C18_resolve_relative (package : List Nat) (modules : List (List Nat × List Nat)) (component : List Nat)
+    (hp : package ≠ []) (hd : 46 ∉ chosen modules component) :
+    resolve package modules component = rstripDots package ++ 46 :: chosen modules component :=
+  resolve_relative package modules component hp hd
+
+/-- **absolute names**: a name made of the package prefix (name and dot) and anything is taken as it is; without a
+package every name is -/
+theorem C18_resolve_absolute (package : List Nat) (modules : List (List Nat × List Nat)) (component rest : List Nat) :
+    (chosen modules component = pkgPrefix package ++ rest → resolve package modules component = chosen modules component) ∧
+    resolve [] modules component = chosen modules component :=
+  ⟨resolve_absolute package modules component rest, resolve_no_package modules component⟩
+
+/-- **resolution is stable**: every resolved name lies inside the package, and writing the resolved names into the
+module map resolves to the same modules (what an installed artifact is given is what the manifest says) -/
+theorem C18_resolve_idempotent (package : List Nat) (modules : List (List Nat × List Nat)) (component : List Nat) :
+    startsWith (resolve package modules component) (pkgPrefix package) = true ∧
+    (resolve package modules component ≠ [] →
+      resolve package [(component, resolve package modules component)] component = resolve package modules component) :=
+  ⟨resolve_startsWith package modules component, resolve_idempotent package modules component⟩
+
+/-- non-vacuity / the adversarial shapes: package `pipe`, conventional component `pipeline` → `pipe.pipeline`; package
+`titanic`, `source='titanic_source'` → `titanic.titanic_source`; absolute `pipe.x` stays; module named as the package -/
+example :
+    resolve [112, 105, 112, 101] [] [112, 105, 112, 101, 108, 105, 110, 101] = [112, 105, 112, 101, 46, 112, 105, 112, 101, 108, 105, 110, 101] ∧
+    resolve [116] [([115], [116, 95, 115])] [115] = [116, 46, 116, 95, 115] ∧
+    resolve [112, 105, 112, 101] [([115], [112, 105, 112, 101, 46, 120])] [115] = [112, 105, 112, 101, 46, 120] ∧
+    resolve [112, 105, 112, 101] [([115], [112, 105, 112, 101])] [115] = [112, 105, 112, 101, 46, 112, 105, 112, 101] ∧
+    resolve [97, 46] [] [115] = [97, 46, 115] := by decide
+
+/-- **installing keeps the component identities**: for every source tree and every dotted module name whose segments are
+names `Package.create` keeps (`segsOk`: not `__pycache__`, no `.dist-info` suffix, not the root `__4ml__.py`), the import
+finds in the installed package exactly what it finds in the source tree — for every package and module map -/
+theorem C18_install_components (root : List Node) (package : List Nat) (modules : List (List Nat × List Nat))
+    (component : List Nat) (hok : segsOk true (splitDots (resolve package modules component)) = true) :
+    locate (installed root) (splitDots (resolve package modules component)) =
+      locate root (splitDots (resolve package modules component)) :=
+  locate_installed root _ hok
+
+/-- … and for any dotted name at any level of the tree: `Package.create` keeps every file the import looks at -/
+theorem C18_archive_keeps (r : Bool) (ns : List Node) (segs : List (List Nat)) (hok : segsOk r segs = true) :
+    locate (packList r ns) segs = locate ns segs :=
+  locate_pack segs r ns hok
+
+/-- the hypothesis is needed: a component module below `__pycache__` is in the source tree and not in the package -/
+theorem C18_install_components_counterexample :
+    locate [.dir [97] [.file initPy, .dir pycache [.file initPy, .file [115, 46, 112, 121]]]] [[97], pycache, [115]] = .module ∧
+    locate (installed [.dir [97] [.file initPy, .dir pycache [.file initPy, .file [115, 46, 112, 121]]]]) [[97], pycache, [115]] = .nothing := by
+  decide
+
+/-- non-vacuity: a nested tree with a data file, a `__pycache__`, a `*.dist-info` and a stale root manifest -/
+example :
+    let root : List Node := [.dir [97] [.file initPy, .dir [98] [.file initPy, .file [115, 46, 112, 121], .file [100, 46, 99, 115, 118]],
+                                        .dir pycache [.file [106]]], .dir ([120] ++ distInfo) [.file [77]], .file descriptor]
+    segsOk true [[97], [98], [115]] = true ∧ locate root [[97], [98], [115]] = .module ∧
+    locate (installed root) [[97], [98], [115]] = .module ∧
+    archive root = [descriptor, [97, 47] ++ initPy, [97, 47, 98, 47] ++ initPy, [97, 47, 98, 47, 115, 46, 112, 121], [97, 47, 98, 47, 100, 46, 99, 115, 118]] ∧
+    zipSafe (archive root) = false := by decide
+
+end ForML.Load
